@@ -3,6 +3,7 @@ import SaModel.Lemmas.C08ZooB
 import SaModel.Lemmas.C08ZooC
 import SaModel.Lemmas.C08ZooD
 import SaModel.Lemmas.C08ZooE
+import SaModel.Lemmas.C08Explore
 /-
 C08 — tracing yields the documented mapping; from_type and from_samples agree.
 Model: SaModel/Trace/{Tracer,FromSamples,FromType}.lean.  Documented mapping: SaModel/Trace/Mapping.lean (`Spec.mapping`,
@@ -282,73 +283,32 @@ theorem C08_options_local_budget (o : Options) (ty : Ty) (h : o.from_type_budget
   · have : passes ty > o.from_type_budget := h
     simp [this, fail, R.isErr]
 
-/-! ### one exploration pass over a leaf type is the documented leaf mapping -/
+/-! ### one exploration pass over an enum-free type is the documented mapping -/
 
-/-- leaf types -/
-def isLeafTy : Ty → Bool
-  | .unit | .bool | .int _ | .f32 | .f64 | .char | .string | .bytes | .unitStruct _ => true
-  | _ => false
+/-- `explore_complete_spec`: for every enum-free type description `ty` (leaves, `Option`, `Vec`, tuples / arrays, structs
+incl. newtype / tuple / unit structs, maps) at ANY position (name, path, nullable flag) and under ANY options
+(overwrites included): when the type can be walked (no container beyond the depth limit, no map under `map_as_struct`),
+one pass of the derived `Deserialize` from a fresh node leaves a COMPLETE tracer whose field is the documented mapping
+(both succeed with the same field, or both are the documented error) and whose paths are the documented paths; when it
+cannot be walked the pass is a (Rust) error. -/
+theorem explore_complete_spec (c : Code) (o : Options) (ty : Ty) (hf : enumFree ty = true) (name path : String)
+    (nl : Bool) :
+    (walkable o path ty = true →
+      ∃ t, explore c o (.unknown name path nl) ty = .ok t ∧ t.is_complete = true ∧
+        Agree (t.to_field o) (mapping o name path nl ty) ∧ t.collect_paths = tyPaths path ty) ∧
+    (walkable o path ty = false → ∃ m, explore c o (.unknown name path nl) ty = .error (.err m)) := by
+  have h := explore_done c o ty name path nl hf
+  exact ⟨fun hw => ⟨_, h.1 hw, done_complete o ty name path nl, done_to_field o ty name path nl,
+    done_paths o ty name path nl⟩, h.2⟩
 
-/-- `C08_from_type_leaf_partial`: at ANY position (name, path, nullable flag) that is not overwritten, one pass of the
-derived `Deserialize` of a leaf type leaves a complete tracer whose field is exactly the documented one.
-Missing for the general theorem `fromType o ty = Spec.fromTypeSpec o ty`: the container cases (the induction over
-`Ty` with the child paths) and the invariant of the multi-pass loop for enums. -/
-theorem C08_from_type_leaf_partial (c : Code) (o : Options) (ty : Ty) (hl : isLeafTy ty = true) (name path : String)
-    (nl : Bool) (h : o.overwrites.find? (fun kv => kv.1 = path) = none) :
-    ∃ t, explore c o (.unknown name path nl) ty = .ok t ∧ t.is_complete = true ∧
-      (match t.to_field o, mapping o name path nl ty with
-       | .ok a, .ok b => a = b
-       | .error (.err _), .error (.err _) => True
-       | _, _ => False) := by
-  have hg : o.get_overwrite path = none := by
-    unfold Options.get_overwrite
-    have : o.overwrites.find? (fun kv => kv.1 == path) = none := by
-      rw [← h]; congr 1
-    rw [this]
-  have key : ∀ (dt : DataType) (tyy : Ty), explore c o (.unknown name path nl) tyy =
-        .ok (.primitive name path (nl || isNull dt) dt none) →
-      (match (Tracer.primitive name path (nl || isNull dt) dt none).to_field o, mapping o name path nl tyy with
-       | .ok a, .ok b => a = b
-       | .error (.err _), .error (.err _) => True
-       | _, _ => False) →
-      ∃ t, explore c o (.unknown name path nl) tyy = .ok t ∧ t.is_complete = true ∧
-      (match t.to_field o, mapping o name path nl tyy with
-       | .ok a, .ok b => a = b
-       | .error (.err _), .error (.err _) => True
-       | _, _ => False) := fun dt tyy h1 h2 => ⟨_, h1, rfl, h2⟩
-  match ty, hl with
-  | .unit, _ =>
-    refine key .null _ rfl ?_
-    simp only [Tracer.to_field, withOverwrite, hg, mapping, overwritten, h, nullField, isNull]
-    cases h1 : o.allow_null_fields <;> simp [fail]
-  | .unitStruct _, _ =>
-    refine key .null _ rfl ?_
-    simp only [Tracer.to_field, withOverwrite, hg, mapping, overwritten, h, nullField, isNull]
-    cases h1 : o.allow_null_fields <;> simp [fail]
-  | .bool, _ =>
-    refine key .boolean _ rfl ?_
-    simp [Tracer.to_field, withOverwrite, hg, mapping, overwritten, h, isNull, isLargeUtf8, isUtf8]
-  | .int t, _ =>
-    refine key (intDataType t) _ rfl ?_
-    cases t <;> simp [Tracer.to_field, withOverwrite, hg, mapping, overwritten, h, isNull, isLargeUtf8, isUtf8, intDataType]
-  | .f32, _ =>
-    refine key .float32 _ rfl ?_
-    simp [Tracer.to_field, withOverwrite, hg, mapping, overwritten, h, isNull, isLargeUtf8, isUtf8]
-  | .f64, _ =>
-    refine key .float64 _ rfl ?_
-    simp [Tracer.to_field, withOverwrite, hg, mapping, overwritten, h, isNull, isLargeUtf8, isUtf8]
-  | .char, _ =>
-    refine key .uint32 _ rfl ?_
-    simp [Tracer.to_field, withOverwrite, hg, mapping, overwritten, h, isNull, isLargeUtf8, isUtf8]
-  | .bytes, _ =>
-    refine key .largeBinary _ rfl ?_
-    simp [Tracer.to_field, withOverwrite, hg, mapping, overwritten, h, isNull, isLargeUtf8, isUtf8]
-  | .string, _ =>
-    refine key o.string_type _ rfl ?_
-    simp only [Tracer.to_field, withOverwrite, hg, mapping, overwritten, h, stringField, Options.string_type,
-      default_dictionary_field]
-    by_cases h1 : o.string_as_large_utf8 = true <;> by_cases h2 : o.string_dictionary_encoding = true <;>
-      simp [h1, h2, isNull, isLargeUtf8, isUtf8]
+/-- non-vacuity: an enum-free type with every container kind that is walkable under the default options (and one that
+is not: a map under `map_as_struct`) -/
+example :
+    let ty : Ty := .struct "S" (.cons "a" (.option (.vec .string)) (.cons "t" (.tuple (.cons (.int .u8) (.cons .bool .nil)))
+      (.cons "n" (.newtypeStruct "N" (.tupleStruct "T" (.cons .f32 .nil))) (.cons "u" (.unitStruct "U") .nil))))
+    enumFree ty = true ∧ walkable {} "$" ty = true ∧
+    enumFree (.map .string ty) = true ∧ walkable {} "$" (.map .string ty) = false ∧
+    walkable { map_as_struct := false } "$" (.map .string ty) = true := by decide
 
 /-! ### the zoo: `from_type` = documented mapping = `from_samples` on covering samples (kernel evaluation) -/
 
